@@ -463,6 +463,15 @@ def genFork (rng : Rng) (len : Nat) : Rng × Array String :=
     else if scenario = 2 then s
     else if scenario = 3 then ((List.range (len / 2)).foldl (fun s _ => s.stepRandom p) s).dangling
     else (List.range (len / 2)).foldl (fun s _ => s.stepRandom p) s
+  -- one time in four the graph that is cloned came out of `load()` (whatever `save` does not write starts afresh in it:
+  -- a clone must copy the graph as it is, not as its unsaved bookkeeping describes it), with a few calls on it since
+  let (rng, viaLoad) := s.rng.below 4
+  let (rng, after) := rng.below 4
+  let s := { s with rng := rng }
+  let s := if viaLoad = 0 then
+      let s := { s with r := { s.r with pos := 0 }, lines := s.lines.push "reload g0 g0" }
+      (List.range after).foldl (fun s _ => s.stepRandom profGc) s
+    else s
   -- one time in three the target handle already holds a fresh graph (same N; same or another capacity): the
   -- harness then clones with `clone_from`
   let (rng, pre) := s.rng.below 6
@@ -794,17 +803,23 @@ def genJoinSer (rng : Rng) (len : Nat) : Rng × Array String :=
   let (rng, capR) := rng.pick [3, 4, 6]
   let prof : Prof := { wAdd := 10, wAddPresent := 1, wBind := 20, wPut := 12, wPutAgain := 1, wData := 2, wDataUnread := 2,
                        wKid := 1, wKids := 1, wNext := 3, wKeys := 0 }
-  let (rng, x) := rng.below (capL - 2)
+  -- half of the histories have the shape twice: two merges, two removed slots (an image whose keys have two gaps)
+  let (rng, two) := rng.below 2
+  let (rng, x) := rng.below (capL - 5)
   let (rng, y) := rng.below (capR - 1)
   let la := pool.headD (.alpha 0)
   let lb := pool.getD 1 (.alpha 1)
   let s0 : GenSt := { GenSt.start rng n capL with labels := pool }
   let s0 := match s0.tryOps [.add x, .add (x + 1), .add (x + 2), .bind x (x + 1) la, .bind x (x + 2) lb] with | some t => t | none => s0
+  let s0 := if two = 0 then
+      (match s0.tryOps [.add (x + 3), .add (x + 4), .add (x + 5), .bind (x + 3) (x + 4) la, .bind (x + 3) (x + 5) lb] with | some t => t | none => s0)
+    else s0
   let s0 := (List.range (len / 2)).foldl (fun s _ => s.stepRandom prof) s0
   let s1 : GenSt := { s0 with h := "g1", r := Sodg.R.empty, cap := capR, lines := s0.lines.push s!"new g1 {n} {capR}" }
   let s1 := match s1.tryOps [.add y, .add (y + 1), .bind y (y + 1) la, .bind y (y + 1) lb] with | some t => t | none => s1
   let s1 := (List.range (len / 4)).foldl (fun s _ => s.stepRandom prof) s1
-  let lines := s1.lines ++ #["observe g0", "observe g1", s!"merge g0 g1 {x} {y}", "observe g0", "snap g0", "save g0", "loadcuts g0 1",
+  let lines := s1.lines ++ #["observe g0", "observe g1", s!"merge g0 g1 {x} {y}"] ++
+    (if two = 0 then #["observe g0", s!"merge g0 g1 {x + 3} {y}"] else #[]) ++ #["observe g0", "snap g0", "save g0", "loadcuts g0 1",
     "reload g0 g2", "observe g0"]
   -- and the slices of it (C13: every reachable graph): from every slot, the removed one included
   let lines := (List.range capL).foldl (fun (ls : Array String) v =>
